@@ -15,3 +15,10 @@ package types
 //@   returns err
 //@   ensures valid: err == nil ==> paramsOK(p)
 //@ end
+
+// JSON syntax check of the options string (assumed: pure)
+//@ func ValidateOptions
+//@   property C07
+//@   trusted
+//@   returns err
+//@ end
